@@ -477,6 +477,53 @@ fn body(sc: Sc) -> vsched::Body {
                     }
                 }
             }
+            // ---- a monitor installed while a join is under way. A membership query that BEGAN after the installation
+            // had returned and did not list the actor yet proves that the join took effect after the installation:
+            // the monitor was monitoring when the join took effect and is owed the Join (only judged when nothing
+            // else touches that membership and the actor is a member in the end)
+            for inst in recs.iter() {
+                let (m, mg, ms): (usize, Option<&'static str>, &'static str) = match &inst.op {
+                    Op::Monitor(g, w) => (*w, Some(*g), DS),
+                    Op::MonitorScope(s, w) => (*w, None, *s),
+                    _ => continue,
+                };
+                let removed = recs.iter().any(|r| match &r.op {
+                    Op::Demonitor(g2, w2) => *w2 == m && Some(*g2) == mg,
+                    Op::DemonitorScope(s2, w2) => *w2 == m && *s2 == ms && mg.is_none(),
+                    Op::Exit(w2) | Op::Drainify(w2) => *w2 == m,
+                    _ => false,
+                });
+                if removed {
+                    continue;
+                }
+                for (jx, j) in recs.iter().enumerate() {
+                    let Op::Join(s, g, w) = &j.op else { continue };
+                    if !(ms == pg::ALL_SCOPES_NOTIFICATION || *s == ms) || mg.is_some_and(|x| x != *g) {
+                        continue;
+                    }
+                    for i in w.iter().collect::<BTreeSet<_>>() {
+                        let a = id(*i);
+                        let others = recs.iter().enumerate().any(|(rx, r)| match &r.op {
+                            Op::Leave(s2, g2, w2) => s2 == s && g2 == g && w2.contains(i),
+                            Op::Join(s2, g2, w2) => s2 == s && g2 == g && w2.contains(i) && rx != jx,
+                            Op::Exit(w2) | Op::Drainify(w2) => w2 == i,
+                            _ => false,
+                        });
+                        let is_member_now = snap.groups.iter().any(|(s2, g2, m2, _)| s2 == s && g2 == g && m2.contains(&a));
+                        if others || !is_member_now {
+                            continue;
+                        }
+                        let proof = recs.iter().any(|q| matches!(&q.op, Op::Members(s2, g2) if s2 == s && g2 == g) && q.call > inst.ret && !q.members.contains(&a));
+                        let told = events[m].iter().any(|e| matches!(e, Evt::Join(s2, g2, who) if s2 == s && g2 == g && who.contains(&a)));
+                        if proof && !told {
+                            bad.push(format!(
+                                "monitor {} of {:?}/{} was installed (returned at #{}) before {a} became a member of {s}/{g} (a query that began later did not list it yet), but never received the Join; events {:?}",
+                                id(m), mg, ms, inst.ret, events[m]
+                            ));
+                        }
+                    }
+                }
+            }
             // ---- clean up for the next execution
             let key = format!(
                 "groups={:?} events={:?}",
@@ -590,6 +637,26 @@ fn scenarios() -> Vec<(Sc, Option<usize>, usize)> {
         (
             Sc { name: "exit-from-two-groups-vs-seen-gone-then-monitor", n_cells: 5, setup: vec![Op::Join(DS, "g", vec![a]), Op::Join(DS, "h", vec![a])], threads: vec![vec![Op::Exit(a)], vec![Op::Members(DS, "g"), Op::Monitor("g", m), Op::Members(DS, "h"), Op::Monitor("h", mw)]], strangers: vec![n, b], after: vec![] },
             None,
+            8,
+        ),
+        (
+            Sc { name: "scope-monitor-installed-during-join", n_cells: 5, setup: vec![], threads: vec![vec![Op::MonitorScope("s", mw), Op::Members("s", "g")], vec![Op::Join("s", "g", vec![a, b])]], strangers: vec![n, m], after: vec![Op::Members("s", "g")] },
+            None,
+            8,
+        ),
+        (
+            Sc { name: "world-monitor-installed-during-join", n_cells: 5, setup: vec![], threads: vec![vec![Op::MonitorScope(pg::ALL_SCOPES_NOTIFICATION, mw), Op::Members(DS, "g")], vec![Op::Join(DS, "g", vec![a])]], strangers: vec![n, m, b], after: vec![] },
+            None,
+            8,
+        ),
+        (
+            Sc { name: "group-monitor-installed-during-join", n_cells: 5, setup: vec![], threads: vec![vec![Op::Monitor("g", m), Op::Members(DS, "g")], vec![Op::Join(DS, "g", vec![a, b])]], strangers: vec![n, mw], after: vec![] },
+            None,
+            8,
+        ),
+        (
+            Sc { name: "scope-monitor-installed-during-join-vs-second-join", n_cells: 5, setup: vec![Op::Join("s", "h", vec![b])], threads: vec![vec![Op::MonitorScope("s", mw), Op::Members("s", "g")], vec![Op::Join("s", "g", vec![a])], vec![Op::Join("s", "g", vec![b])]], strangers: vec![n, m], after: vec![] },
+            Some(3),
             8,
         ),
         (
